@@ -340,6 +340,11 @@ func runCheck(o *checkOpts) int {
 				results = append(results, r)
 			}
 		}
+		for _, r := range w.restrictResults() {
+			if o.prop == "" || hasTag(r.Ob.Tags, o.prop) {
+				results = append(results, r)
+			}
+		}
 	}
 
 	// classify
